@@ -438,6 +438,10 @@ class DeferredSender (threading.Thread):
 
   def send (self, con, data):
     with self._lock:
+      if con.disconnected:
+        # The sender thread may have disconnected it while the caller
+        # was on its way here; don't queue data for a dead connection.
+        return
       self.sending = True
 
       data = self._sliceup(data)
